@@ -206,7 +206,7 @@ def run(ctx):
                 traces.append((qs, BR.make_trace(cfg, steps2)))
             sn, lv = combos[k % len(combos)]
             k += 1
-            fails = P.check_repeat(cfg, qs, P.SHAPES[sn], lv, rnd)
+            fails = P.check_repeat(cfg, qs, P.SHAPES[sn], lv, rnd, dtype=(torch.float32 if k % 3 == 0 else torch.float64))
             ctx.case((name, str(qs), sn, lv, cfg.off), nontrivial=len(set(qs)) >= 2, trace=steps is not None,
                      sample=dict(cfg=name, history=qs, shape=sn, levy=lv, origin=cfg.t(0)))
             for kind, det in fails[:2]:
